@@ -137,7 +137,8 @@ def _one(item):
         else:
             mod.compile(top)
     except Exception as e:
-        if exp[0] in ("error", "either"):
+        half_sized_diode = spec[0] == "Diode" and (("w" in spec[1]) != ("l" in spec[1]))  # area needs both: refusing is a fair answer
+        if exp[0] in ("error", "either") or half_sized_diode:
             if descriptive(e):
                 return ("ok", "error")
             return ("bad", f"no device satisfies the request, but the error is not descriptive: {type(e).__name__}: {str(e)[:80]!r}")
@@ -182,6 +183,24 @@ def _one(item):
         r = check_params(pdk, (spec[0], kw2), top.instances["d2"].of)
         if r:
             return ("bad", "second transistor differing only in its multiplier: " + r)
+    # a given size must reach the device: the same request with another value gives another device call
+    if spec[0] in ("Res2", "Res3", "Cap2", "Cap3", "Diode"):
+        pcall = insts[0].of.params
+        fields = set(pcall) if isinstance(pcall, dict) else set(getattr(type(pcall), "__params__", {}))
+        for dim in ("w", "l"):
+            # a device without any width-like parameter has a fixed width (documented for the Sky130 precision resistors)
+            if dim == "w" and not any(f.lower() in ("w", "width", "r_width", "c_width") or "wid" in f.lower() or f.lower().endswith("w") for f in fields):
+                continue
+            if dim in spec[1]:
+                try:
+                    other = dict(spec[1])
+                    other[dim] = str(float(Fraction(spec[1][dim]) + Fraction(5, 4)))
+                    t2, m2 = hierarchy(h, (spec[0], other))
+                    mod.compile(t2)
+                except Exception as e:
+                    return ("bad", f"the same device with another {dim} could not be compiled: " + short_exc(e)[:100])
+                if m2.instances["x"].of.params == insts[0].of.params:
+                    return ("bad", f"given {dim}={spec[1][dim]}u does not reach the device: {dim}={other[dim]}u compiles to the very same device call {str(insts[0].of.params)[:80]}")
     # a size given alone: the other dimension must be the one a fully defaulted device gets
     if spec[0] in ("Mos", "Res2", "Res3", "Cap2", "Cap3") and (("w" in spec[1]) != ("l" in spec[1])):
         try:
@@ -285,9 +304,8 @@ def items_for(tier):
                     out.append((pdk, (cls, kw), "once"))
                     if cls in ("Res2", "Res3", "Cap2", "Cap3", "Diode") and r["terminals"] == {"Res2": 2, "Res3": 3, "Cap2": 2, "Cap3": 3, "Diode": 2}[cls]:
                         out.append((pdk, (cls, dict(kw, w="3", l="1.5")), "two_pdks"))
-                        if cls != "Diode":
-                            out.append((pdk, (cls, dict(kw, w="3")), "once"))
-                            out.append((pdk, (cls, dict(kw, l="1.5")), "once"))
+                        out.append((pdk, (cls, dict(kw, w="3")), "once"))
+                        out.append((pdk, (cls, dict(kw, l="1.5")), "once"))
         # unknown model names
         if pdk in ("sky130", "gf180"):  # the PDKs that document selection by model name
             for cls in ("Mos", "Res2", "Cap3", "Diode", "Bipolar"):
